@@ -193,6 +193,13 @@ def layout_case(rec, seedt):
         "noncontiguous-view": big[:, 2:2 + 2 * N:2],
         "negative-stride-view": rev[:, ::-1],
     }
+    try:
+        import pandas as pd
+        if N != 2:
+            variants["pandas-DataFrame-Nx2"] = pd.DataFrame({"a": x, "b": y})
+        variants["list-of-Series"] = [pd.Series(x), pd.Series(y)]
+    except Exception:
+        pass
     if N != 2:
         variants["Nx2-C"] = np.ascontiguousarray(base.T)
         variants["Nx2-F"] = np.asfortranarray(base.T)
